@@ -455,14 +455,14 @@ Proof.
     destruct Hin as [X|Hin]; [inversion X; subst; congruence|]. eauto.
 Qed.
 
-Lemma p_ep_ready_in c s d id : ep_map (st_ep s) d = Some id -> st_closed s d = true ->
+Lemma p_ep_ready_in c s d id : p_refused c d = false -> ep_map (st_ep s) d = Some id -> st_closed s d = true ->
   forall ds, In d ds -> exists fl, In (id, fl) (p_ep_ready c s ds) /\ f_hup fl = true.
 Proof.
-  intros M C. induction ds; simpl; intros Hin. tauto.
+  intros NR M C. induction ds; simpl; intros Hin. tauto.
   destruct Hin as [->|Hin].
   - rewrite M.
     assert (H : f_hup (p_ep_flags c s (ep_obj (st_ep s) id) d) = true).
-    { unfold p_ep_flags. destruct (p_is_sock c d); simpl; exact C. }
+    { unfold p_ep_flags. rewrite NR. destruct (p_is_sock c d); simpl; exact C. }
     assert (A : p_flag_any (p_ep_flags c s (ep_obj (st_ep s) id) d) = true).
     { unfold p_flag_any. rewrite H. apply orb_true_r. }
     rewrite A. eexists. split. left. reflexivity. exact H.
@@ -486,11 +486,11 @@ Proof.
 Qed.
 
 Lemma p_ep_close_reported c ops d id desc :
-  length c <= p_max_events ->
+  p_refused c d = false -> length c <= p_max_events ->
   p_no_target c d -> d < length c -> p_ke d id (p_run true c ops) ->
   p_closed_logged d (p_step c (p_run true c ops) (POPoll desc)).
 Proof.
-  intros LM G L K. set (s := p_run true c ops) in *.
+  intros NR LM G L K. set (s := p_run true c ops) in *.
   assert (I : p_inv c true s) by apply p_inv_run.
   assert (W : p_wfs s) by apply p_wfs_run.
   clearbody s. unfold p_step. rewrite (ke_be _ _ _ K). cbv zeta.
@@ -500,7 +500,7 @@ Proof.
   assert (Hd : In d ds).
   { unfold ds. destruct desc; [apply -> in_rev|]; apply in_seq; lia. }
   destruct (ke_ep _ _ _ K) as (M & _).
-  destruct (p_ep_ready_in c s d id M (ke_closed _ _ _ K) ds Hd) as (fl & Hin & HUP).
+  destruct (p_ep_ready_in c s d id NR M (ke_closed _ _ _ K) ds Hd) as (fl & Hin & HUP).
   destruct (p_ep_ready c s ds) as [|ev evs] eqn:R. destruct Hin.
   apply (p_logged_mono d (fold_left (p_ep_check c) (ev :: evs) s)). apply p_lmono_same; reflexivity.
   eapply p_ke_fold_check; eauto.
